@@ -8,7 +8,8 @@ PROPERTY = "C08"
 RULE = 'Same generator as C07. Oracle at each commit of an interaction or cell-veto handler: every unit of the in-state snapshot taken when its candidate was computed has the same velocity in the global state just before the commit and lies on the same straight line (same position if resting). The same comparison is made for every candidate still pending when the mediator asks the scheduler for the next event (signatures pending-stale-*), and the returned entry must carry the current candidate time of its handler. Non-trivial: history with >=1 committed interaction event whose candidate was computed >=2 commits earlier; distinct by (config, edits, seed, budget).'
 ASSUMPTIONS = ["configurations are the runnable shipped .ini files verbatim, or shipped files with parameter edits "
                "only (particle number with number_event_handlers scaled, box, beta, chain/sampling times, grids, "
-               "occupant caps, scheduler, speed, initial direction); wiring is never generated",
+               "scheduler, speed, initial direction); generated wirings are limited to the families G4-G7 derived from "
+               "shipped files (DESIGN.md 8.5) and to a second sampling tagger copied from the shipped one",
                "observation by wrapping instance attributes of state handler, scheduler, activator, input-output "
                "handler and event handlers; private reads: Mediator._state_handler/_scheduler/_activator/"
                "_input_output_handler, Activator._taggers/_internal_states"]
